@@ -42,3 +42,38 @@ Example unclean_columns_shift :
               m_syn := []; m_oov := false |} in
   split_on TAB (line false m) <> fields false m.
 Proof. vm_compute. discriminate. Qed.
+
+(* ---- Python glue (Model/PyProjection.v) ------------------------------------------------------------------------------ *)
+From SudachiVerif Require Import Model.Codec Model.PyProjection Proofs.PyProjectionProofs.
+
+(* POS table: 0 = 名詞,普通名詞,一般,*,*,*   1 = 動詞,非自立可能,*,*,五段-カ行,連用形-促音便 ; morphemes 京都 (noun) and 行っ (verb) *)
+Definition ex_pl : list (list text) :=
+  [ [[21517; 35422]; [26222; 36890; 21517; 35422]; [19968; 33324]; [42]; [42]; [42]];
+    [[21205; 35422]; [38750; 33258; 31435; 21487; 33021]; [42]; [42]; [20116; 27573; 45; 12459; 34892]; [36899; 29992; 24418; 45; 20419; 38899; 20415]] ].
+Definition ex_noun : pym := mkPym [20140; 37117] 0 [20140; 37117] [12461; 12519; 12454; 12488] [20140; 37117].
+Definition ex_verb : pym := mkPym [34892; 12387] 1 [34892; 12367] [12452; 12483] [34892; 12367].
+
+Example ex_projections :
+  map (fun k => (project ex_pl k ex_noun, project ex_pl k ex_verb)) all_kinds =
+  [ (Some [20140; 37117], Some [34892; 12387]);                  (* surface *)
+    (Some [20140; 37117], Some [34892; 12367]);                  (* normalized: 行っ -> 行く *)
+    (Some [12461; 12519; 12454; 12488], Some [12452; 12483]);    (* reading *)
+    (Some [20140; 37117], Some [34892; 12367]);                  (* dictionary *)
+    (Some [20140; 37117], Some [34892; 12387]);                  (* dictionary_and_surface: the verb keeps its surface *)
+    (Some [20140; 37117], Some [34892; 12387]);                  (* normalized_and_surface *)
+    (Some [20140; 37117], Some [34892; 12387]) ].                (* normalized_nouns: the verb has a conjugation form *)
+Proof. vm_compute. reflexivity. Qed.
+
+Example ex_names :
+  kind_of_name "normalized_nouns" = Some PNormalizedNouns /\ kind_of_name "Normalized" = None /\ kind_of_name "" = None.
+Proof. vm_compute. repeat split. Qed.
+
+Example ex_fields :
+  parse_field_subset (Some ["pos"; "split_a"]%string) = Some 68 /\ parse_field_subset (Some ["pos"; "surfaces"]%string) = None /\
+  parse_field_subset None = Some 1023 /\ parse_field_subset (Some []) = Some 0 /\
+  loaded_subset 0 (Some PNormalizedNouns) = 9.      (* fields=set(), projection normalized_nouns: NORMALIZED_FORM | SURFACE *)
+Proof. vm_compute. repeat split. Qed.
+
+(* the hypothesis of C19_pos_id_loaded_with_any_later_field is met by the subset of the last example: flag 3 *)
+Example ex_later_field : N.testbit (loaded_subset 0 (Some PNormalizedNouns)) 3 = true /\ N.testbit (loaded_subset 0 (Some PNormalizedNouns)) 2 = false.
+Proof. vm_compute. split; reflexivity. Qed.
